@@ -326,8 +326,27 @@ def hoist_suspensions(fn):
             return None
         if isinstance(s, ast.Return) and isinstance(v, ast.Yield):
             return v            # `return (yield X)`: name the answer
+        # a suspension that is evaluated only under a condition (an arm of a
+        # conditional expression, a later operand of and / or, the element
+        # of a comprehension) stays where it is: giving it a statement of
+        # its own would make it unconditional
+        conditional = set()
+        for n in _walk_no_nested(v):
+            arms = []
+            if isinstance(n, ast.IfExp):
+                arms = [n.body, n.orelse]
+            elif isinstance(n, ast.BoolOp):
+                arms = n.values[1:]
+            elif isinstance(n, (ast.ListComp, ast.SetComp, ast.DictComp,
+                                ast.GeneratorExp)):
+                arms = [n]
+            for a_ in arms:
+                for x_ in ast.walk(a_):
+                    conditional.add(id(x_))
         for n in _walk_no_nested(v):
             if n is v:
+                continue
+            if id(n) in conditional:
                 continue
             if isinstance(n, (ast.Yield, ast.YieldFrom, ast.Await)):
                 # operands of the suspension itself must not suspend
